@@ -19,9 +19,15 @@ type fileModel struct {
 	ver  int
 	kind int // 0 plain, 1 includes ref, 2 extends ref, 3 imports ref, 4 includeIfExists(ref), 5 exec(ref): 1/4/5 load at run time
 	ref  string
+	pad  int // bytes of a trailing comment: files beyond 512 B / 4 KiB / 64 KiB (reads in several chunks)
 }
 
 func (f fileModel) content(path string) string {
+	if f.pad > 0 {
+		g := f
+		g.pad = 0
+		return g.content(path) + "{*" + strings.Repeat("z", f.pad) + "*}"
+	}
 	m := fmt.Sprintf("[%s#%d]", path, f.ver)
 	switch f.kind {
 	case 4:
@@ -138,6 +144,10 @@ func (c *c16) newSet(i int) {
 func (c *c16) setFile(path string, kind int, ref string) {
 	c.vers[path]++
 	f := &fileModel{ver: c.vers[path], kind: kind, ref: ref}
+	f.pad = []int{0, 0, 0, 0, 0, 0, 0, 0, 0, 700, 5000, 70000}[c.t.Choose(12)]
+	if f.pad > 0 {
+		c.env.Stat("probe:file_longer_than_512_bytes", 1)
+	}
 	c.files[path] = f
 	if c.past == nil {
 		c.past = map[string]*fileModel{}
@@ -649,6 +659,9 @@ func RunC16(env *sim.Env) {
 				if p, ok := c.resolve(b); ok {
 					kind := 1 + t.Choose(5)
 					k := t.Choose(8)
+					if f := c.files[p]; f != nil && f.pad > 0 && t.Choose(2) == 1 {
+						k = t.Choose(len(f.content(p)) + 1) // the read fails somewhere inside a long file
+					}
 					c.loader.Arm(p, kind, k)
 					nFaults++
 					c.hist = append(c.hist, fmt.Sprintf("Arm(%s,%s)", p, FaultNames[kind]))
